@@ -1916,7 +1916,7 @@ struct TemplateCore {
         while (offset < end_offset) {
             switch (content[offset]) {
                 case QOperationSymbol::OrExp: { // ||
-                    if (content[(offset + 1)] == QOperationSymbol::OrExp) {
+                    if (((offset + 1) < end_offset) && (content[(offset + 1)] == QOperationSymbol::OrExp)) {
                         return QOperation::Or;
                     }
 
@@ -1924,7 +1924,7 @@ struct TemplateCore {
                 }
 
                 case QOperationSymbol::AndExp: { // &&
-                    if (content[(offset + 1)] == QOperationSymbol::AndExp) {
+                    if (((offset + 1) < end_offset) && (content[(offset + 1)] == QOperationSymbol::AndExp)) {
                         return QOperation::And;
                     }
 
@@ -1932,7 +1932,7 @@ struct TemplateCore {
                 }
 
                 case QOperationSymbol::GreaterExp: { // > or >=
-                    if (content[(offset + 1)] == QOperationSymbol::EqualExp) {
+                    if (((offset + 1) < end_offset) && (content[(offset + 1)] == QOperationSymbol::EqualExp)) {
                         return QOperation::GreaterOrEqual;
                     }
 
@@ -1940,7 +1940,7 @@ struct TemplateCore {
                 }
 
                 case QOperationSymbol::LessExp: { // < or <=
-                    if (content[(offset + 1)] == QOperationSymbol::EqualExp) {
+                    if (((offset + 1) < end_offset) && (content[(offset + 1)] == QOperationSymbol::EqualExp)) {
                         return QOperation::LessOrEqual;
                     }
 
@@ -1948,7 +1948,7 @@ struct TemplateCore {
                 }
 
                 case QOperationSymbol::NotExp: { // !=
-                    if (content[(offset + 1)] == QOperationSymbol::EqualExp) {
+                    if (((offset + 1) < end_offset) && (content[(offset + 1)] == QOperationSymbol::EqualExp)) {
                         return QOperation::NotEqual;
                     }
 
@@ -1956,7 +1956,7 @@ struct TemplateCore {
                 }
 
                 case QOperationSymbol::EqualExp: { // ==
-                    if (content[(offset + 1)] == QOperationSymbol::EqualExp) {
+                    if (((offset + 1) < end_offset) && (content[(offset + 1)] == QOperationSymbol::EqualExp)) {
                         return QOperation::Equal;
                     }
 
